@@ -25,6 +25,20 @@ ASSUME OffsetsConsistent == \A s \in Schemas :
           /\ FieldOffset(s, 1) = 0
           /\ FieldCount(s) >= Len(s)
           /\ (FieldCount(s) = Len(s) <=> \A i \in 1..Len(s) : s[i].arr \in {0, 1})
+\* routes: indices ascend, stay inside the table, and the simple routes are what their names say
+ASSUME RouteLaw == \A n \in 0..7 : \A r \in RoutesFor(n) :
+          LET ix == RouteIdx(r, n) IN
+          /\ \A j \in 1..Len(ix) : ix[j] \in 0..(n - 1)
+          /\ \A j \in 1..(Len(ix) - 1) : ix[j] < ix[j + 1]
+          /\ (r.kind = "iter" => ix = [j \in 1..n |-> j - 1])
+          /\ (r.kind = "step" /\ r.a = 1 => ix = RouteIdx(RouteRec("iter", 0, 0), n))
+          /\ (r.kind = "skip" => ix = SubSeq(RouteIdx(RouteRec("iter", 0, 0), n), r.a + 1, n))
+ASSUME RouteVectors == /\ RouteIdx(RouteRec("step", 3, 0), 7) = <<0, 3, 6>>
+                       /\ RouteIdx(RouteRec("skipstep", 2, 3), 7) = <<2, 5>>
+                       /\ RouteIdx(RouteRec("nthnth", 1, 1), 7) = <<1, 3>> /\ RouteIdx(RouteRec("nthnth", 0, 2), 3) = <<0>>
+                       /\ RouteIdx(RouteRec("nth", 3, 0), 3) = <<>> /\ RouteIdx(RouteRec("last", 0, 0), 0) = <<>>
+\* skipping by 4 * field_count lands on record boundaries exactly for all-32-bit layouts
+ASSUME StrideLaw == \A s \in Schemas : (4 * FieldCount(s) = SkipStride(s)) <=> AllWide(s)
 ASSUME Vectors == /\ RecordSize(<<[ty |-> "UInt32", arr |-> 0], [ty |-> "Float32", arr |-> 3]>>) = 16
                   /\ FieldCount(<<[ty |-> "UInt32", arr |-> 0], [ty |-> "Float32", arr |-> 3]>>) = 4
                   /\ RecordSize(<<[ty |-> "UInt8", arr |-> 3], [ty |-> "Int16", arr |-> 0]>>) = 5
